@@ -83,8 +83,26 @@ def t_versionmatch(ex):
 
 
 def generic_eq(it, cls, a, b):
-    parts = [as_bool(models.eq(it, a.fields[n], b.fields[n])) for n in cls.__attr_comparison__ if n not in ("_hash", "__class__")]
-    return And(*parts)
+    """GenericEquality as the class declares it *now*: the conjunction over __attr_comparison__ (read from the real class on every run).
+    An attribute the contract's record does not carry is resolved on the real class (a class-level constant compares equal to itself);
+    if that is not possible either the contract does not apply (undecided), it never crashes."""
+    from pyvc.sym import OutOfSubset
+    parts = []
+    for n in cls.__attr_comparison__:
+        if n in ("_hash", "__class__"):
+            continue
+        if n in a.fields and n in b.fields:
+            parts.append(as_bool(models.eq(it, a.fields[n], b.fields[n])))
+            continue
+        import inspect
+        try:
+            d = inspect.getattr_static(cls, n)
+        except AttributeError:
+            raise OutOfSubset(f"{cls.__name__}.__attr_comparison__ names {n!r}, which the contract's record of the class does not carry")
+        if isinstance(d, (property, staticmethod, classmethod)) or callable(d) or hasattr(d, "__get__"):
+            raise OutOfSubset(f"{cls.__name__}.__attr_comparison__ names the computed attribute {n!r}: the contract does not model it")
+        # a plain class attribute: the same constant on both sides
+    return And(*parts) if parts else SBool(z3.BoolVal(True))
 
 
 def t_values(ex):
@@ -127,10 +145,18 @@ def t_hash_attr_lists(ex):
     import pkgcore.restrictions.packages as Pk
     import pkgcore.restrictions.boolean as B
     R_ = KRef("ChildRestriction")
-    which = ex.choose(3)
+    which = ex.choose(4)
     it = Interp(ex, label="C07.hash_lists")
     it.hash_model = hash_model
-    if which == 0:
+    if which == 3:
+        # the multi-attribute form shares __eq__ / __hash__ with its parent; its `attr` is a class constant (None)
+        cls, P, f = Pk.PackageRestrictionMulti, "C07.PackageRestrictionMulti", F_PKG
+        mk = lambda t: SObj(cls, {"negate": KBool.fresh("neg" + t), "_attr_split": KStr.fresh("attrs" + t), "restriction": R_.fresh("child" + t), "attrs": None})
+        a, b = mk("1"), mk("2")
+        for o in (a, b):
+            o.fields["attrs"] = o.fields["_attr_split"]
+        qn = "PackageRestriction.__hash__"
+    elif which == 0:
         cls, P, f = Pk.PackageRestriction, "C07.PackageRestriction", F_PKG
         mk = lambda t: SObj(cls, {"negate": KBool.fresh("neg" + t), "_attr_split": KStr.fresh("attrs" + t), "restriction": R_.fresh("child" + t),
                                   "attrs": None})
@@ -151,6 +177,12 @@ def t_hash_attr_lists(ex):
         a, b = mk("1"), mk("2")
         qn = "base.__hash__"
     eq = generic_eq(it, cls, a, b)
+    # equality has to look at everything match() reads (the record's fields other than caches): equal objects agree on all of them
+    for n in sorted(a.fields):
+        if n in ("attrs",) or n.startswith("_hash"):
+            continue
+        same = models.eq(it, a.fields[n], b.fields[n]) if not isinstance(a.fields[n], tuple) else And(*[as_bool(models.eq(it, x, y)) for x, y in zip(a.fields[n], b.fields[n])])
+        ex.oblige(f"{P}.ensures.equal_restrictions_agree_on_{n.lstrip('_')}", Implies(eq, as_bool(same)))
     fn = it.target(f, qn)
     ha, hb = call(it, fn, a), call(it, fn, b)
     ex.oblige(f"{P}.__hash__.raises.nothing", not (ha.raised or hb.raised), kind="exceptional-postcondition")
@@ -293,6 +325,32 @@ def enum_pairs(seed):
     # the restriction trees atoms and query parsers build from version restrictions
     trees = [(f"And(PackageRestriction(fullver, {n}))", boolean.AndRestriction(packages.PackageRestriction("package", values.StrExactMatch("p")), vm)) for n, vm in vms[::3]]
     compare("tree", trees, pkgs, lambda r, p: r.match(p))
+    # multi-attribute package restrictions (what USE-dependency defaults are made of): different attribute tuples, same child
+    class _AnyOf(values.base):
+        __slots__ = ("want",)
+        __attr_comparison__ = ("want",)
+        __hash__ = object.__hash__
+
+        def __init__(self, want):
+            object.__setattr__(self, "want", want)
+
+        def match(self, vals):
+            return self.want in [str(v) for v in vals]
+
+        def __eq__(self, o):
+            return isinstance(o, _AnyOf) and o.want == self.want
+
+        def __hash__(self):
+            return hash(self.want)
+    multi = []
+    for attrs in (("category", "package"), ("package", "category"), ("category", "slot"), ("package", "fullver"), ("category",)):
+        for want in ("c", "p"):
+            for neg in (False, True):
+                try:
+                    multi.append((f"PackageRestrictionMulti({attrs}, any-of {want!r}, negate={neg})", packages.PackageRestrictionMulti(attrs, _AnyOf(want), negate=neg)))
+                except Exception:
+                    pass
+    compare("multi", multi, pkgs, lambda r, p: r.match(p))
     vals = [("StrExactMatch('Ab')", values.StrExactMatch("Ab")), ("StrExactMatch('ab', case_sensitive=False)", values.StrExactMatch("ab", case_sensitive=False)),
             ("StrExactMatch('AB', case_sensitive=False)", values.StrExactMatch("AB", case_sensitive=False)), ("StrExactMatch('Ab', negate=True)", values.StrExactMatch("Ab", negate=True)),
             ("StrGlobMatch('ab')", values.StrGlobMatch("ab")), ("StrGlobMatch('ab', prefix=False)", values.StrGlobMatch("ab", prefix=False)),
